@@ -351,7 +351,7 @@ def run(rep, tier, seed):
         try: neg["r"] = negative_controls(sorted(sel, key=lambda r: -r[2]["n"])[:300] + sel[:300])
         except Exception as ex: neg["e"] = ex
     nth = threading.Thread(target=negjob); nth.start()
-    nev, nruns, rej = validate_traces(sel, tier, nproc=8 if tier == "quick" else 14)
+    nev, nruns, rej = validate_traces(sel, tier, nproc=4 if tier == "quick" else 14)
     nth.join()
     if "e" in neg: raise neg["e"]
     passed, tried = neg["r"]
